@@ -1037,6 +1037,10 @@ def classify(v):
     if clause == "valid-loads" and detail.get("exception") == "TrackConfigError" and "Unused track parameters" in detail.get("message", ""):
         named = [x for x in detail["message"].split("[", 1)[-1].split("]")[0].replace("'", "").replace(" ", "").split(",") if x]
         unscanned = diag.get("supplied_unscanned") or {}
+        if named and all(n in M.JINJA_GLOBAL_NAMES for n in named):
+            # (5) the parameter is used in the track, but its name is one of Jinja's built-in globals (range, dict, namespace, cycler,
+            #     joiner, lipsum): meta.find_undeclared_variables does not list names the environment already knows
+            return "param-named-like-jinja-global-reported-unused"
         if named and all(n in unscanned for n in named):
             if any("jinja-include" in unscanned[n] for n in named):
                 return "param-used-only-in-jinja-include-reported-unused"
